@@ -274,6 +274,30 @@ def run(ctx):
                                    'before it rules out a negative count: -1 becomes 2^64 - 1 iterations over an array of num_fragments pointers')
     r.require_min(2)
 
+    # ---------------- R13k shift counts stay below the width
+    r = ctx.rule('R13k', 'no 32-bit shift by the number of fragments: a shift count built as the sum of two count parameters (k + m, up to 32) is out of range for the widest stripe',
+                 '(1U << (k + m)) - 1 is the mask of all fragments only up to 31 fragments: at k + m == 32 the shift is undefined (0 on x86-64) and the mask is empty')
+    from ..chains import OUT_OF_SCOPE as _OOS13k
+    nk13 = 0
+    for fn in P.fns.values():
+        if not fn.order or _OOS13k.search(fn.mod.src):
+            continue
+        pck = None
+        for sh in fn.insts():
+            if sh.op not in ('shl', 'lshr', 'ashr') or sh.ty != 'i32' or INT.match(sh.ops[1]):
+                continue
+            pck = pck or _PC13j(P, fn)
+            amt = pck.val(sh.ops[1])
+            nk13 += 1
+            ats = sorted(amt.atoms())
+            if len(amt) == 2 and len(ats) == 2 and all(re.match(r'^arg\d+$', a_) for a_ in ats) and all(v_ == 1 for v_ in amt.values()) and \
+               all(fn.params[int(a_[3:])][0] == 'i32' for a_ in ats):
+                r.fail(f'{fn.name}: shift count at line {sh.line}', func=fn.name, sig=f'32-bit shift by {amt}', loc=sh.loc,
+                       msg=f'{fn.name} shifts a 32-bit value by {amt}, the sum of two count parameters: for a stripe of 32 fragments (the widest the library accepts) '
+                           'the count equals the width of the operand')
+    r.ok(f'{nk13} variable 32-bit shifts in scope, none by the sum of two count parameters', func='<all units>', loc='src')
+    r.require_min(1)
+
     # ---------------- R13e divisors
     r = ctx.rule('R13e', 'front-end divisions: divisor built only from k and the byte word size',
                  'a zero divisor is a SIGFPE on an accepted instance')
